@@ -233,9 +233,9 @@ pub open spec fn ft_mant(b: int, d: FloatText) -> int {
     if d.sign == seq!['-'] { -m } else { m }
 }
 /// value = ft_mant * B^ft_exp:  aaa.bbb@cc = aaabbb * B^(cc - len(bbb)),  0xaaa.bbbPcc = 0xaaabbb / 16^len(bbb) * 2^cc
-pub open spec fn ft_exp(d: FloatText) -> int { ft_scale(d) - ft_bits(d) * ndig(d.fpart) }
+pub open spec fn ft_exp(d: FloatText) -> int { if ft_hex(d) { ft_scale(d) - 4 * ndig(d.fpart) } else { ft_scale(d) - ndig(d.fpart) } }
 /// "the precision is determined by the number of digits that are presented in the input string" (bits for 0x literals)
-pub open spec fn ft_prec(d: FloatText) -> int { ft_bits(d) * (ndig(d.ipart) + ndig(d.fpart)) }
+pub open spec fn ft_prec(d: FloatText) -> int { if ft_hex(d) { 4 * (ndig(d.ipart) + ndig(d.fpart)) } else { ndig(d.ipart) + ndig(d.fpart) } }
 
 /// C08 for a successfully parsed text
 pub open spec fn parsed_ok<const B: Word>(src: Seq<char>, repr: Repr<B>, nd: usize) -> bool {
@@ -544,3 +544,31 @@ pub proof fn lemma_digits_ok_empty(radix: int)
 {
     reveal(digits_ok);
 }
+
+/// the arithmetic of "integer part, fraction part" -> significand, kept out of the big function:
+/// value(ipart ++ fpart) == value(ipart) * B^fd + value(fpart) with fd = (bits per digit) * (digits of fpart), and an
+/// all-zero fraction may stay in the exponent
+pub proof fn lemma_frac_value(b: int, hex: bool, radix: int, gi: Seq<char>, gf: Seq<char>, iv: int, fv: int, fd: int, scale: int)
+    requires b >= 2, hex ==> b == 2, radix == (if hex { 16 } else { b }),
+        iv == dval(gi, radix), fv == dval(gf, radix), iv >= 0,
+        hex ==> fd == 4 * ndig(gf), !hex ==> fd == ndig(gf),
+    ensures fd >= 0, ipow(b, fd as nat) >= 1, iv * ipow(b, fd as nat) >= 0,
+        dval(gi + gf, radix) == iv * ipow(b, fd as nat) + fv,
+        same_value(b, iv, scale, iv * ipow(b, fd as nat), scale - fd),
+        same_value(b, iv * ipow(b, fd as nat) + fv, scale - fd, iv * ipow(b, fd as nat) + fv, scale - fd),
+{
+    lemma_dval_concat(gi, gf, radix);
+    if hex { lemma_ipow_16(ndig(gf) as nat); }
+    lemma_ipow_pos(b, fd as nat);
+    let p = ipow(b, fd as nat);
+    assert(iv * p >= 0) by (nonlinear_arith) requires iv >= 0, p >= 1;
+    lemma_sv_shift(b, iv, scale, fd as nat);
+    lemma_same_value_refl(b, iv * p + fv, scale - fd);
+}
+
+/// the postcondition from an explicit reading of the text
+pub proof fn lemma_parsed_ok<const B: Word>(src: Seq<char>, repr: Repr<B>, nd: usize, d: FloatText)
+    requires grammar(src, B as int, d), nd as int == ft_prec(d),
+        same_value(B as int, repr.significand.v(), repr.exponent as int, ft_mant(B as int, d), ft_exp(d)),
+    ensures parsed_ok::<B>(src, repr, nd)
+{}
